@@ -77,7 +77,40 @@ func resolveColumn(v ssa.Value, depth int) (*colInfo, string) {
 			}
 			k, isConst := constInt(a.Index)
 			if !isConst {
-				return nil, "column array indexed by a non-constant"
+				// indexed by a loop index that stays inside the array: one of the array's columns, all of which must
+				// resolve
+				at, isArr := deref(arr.Type()).Underlying().(*types.Array)
+				n, isR := rangeIndexConst(a.Index)
+				inside := isArr && ((isR && n <= at.Len()) || func() bool { ok, _ := isRangeIndexOver(a.Index, a.X); return ok }())
+				if !inside || depth > 2 {
+					return nil, "column array indexed by a non-constant"
+				}
+				var names []string
+				var first *colInfo
+				saved := idxSubst
+				for kk := int64(0); kk < at.Len(); kk++ {
+					ns := map[ssa.Value]int64{}
+					for k2, v2 := range saved {
+						ns[k2] = v2
+					}
+					ns[a.Index] = kk
+					idxSubst = ns
+					ci, why := resolveColumn(v, depth+1)
+					idxSubst = saved
+					if ci == nil {
+						return nil, why
+					}
+					if first == nil {
+						first = ci
+					} else if first.required != ci.required {
+						return nil, "column array mixes required and optional columns"
+					}
+					names = append(names, ci.name)
+				}
+				if first == nil {
+					return nil, "empty column array"
+				}
+				return &colInfo{name: strings.Join(names, "|"), required: first.required, ctor: first.ctor, file: first.file}, ""
 			}
 			// stores dayColumns[i] = f.RequiredColumn(lit[i]) inside a range over a literal
 			for _, r := range *arr.Referrers() {
